@@ -421,6 +421,20 @@ func (p *Parser) parseConstraintColumnList() ([]string, error) {
 func (p *Parser) parseSelectStatement() (ast.Statement, error) {
 	// We've already consumed the SELECT token in matchType
 
+	// Depth guard: derived tables in FROM and JOIN re-enter this function without passing
+	// through parseExpression
+	p.depth++
+	defer func() { p.depth-- }()
+
+	if p.depth > MaxRecursionDepth {
+		return nil, goerrors.RecursionDepthLimitError(
+			p.depth,
+			MaxRecursionDepth,
+			p.currentLocation(),
+			"",
+		)
+	}
+
 	// Check for DISTINCT or ALL keyword
 	isDistinct := false
 	var distinctOnColumns []ast.Expression
